@@ -29,6 +29,14 @@ def sub_kernel(c, ctx):
         stats[key] = stats.get(key, 0) + val
     for key, val in stats2.items():
         stats[key] = stats.get(key, 0) + val
+    if stats.get("handler_slower_than_4s", 0) > 0:
+        # a wedge without a crash: HandleProposedHeader returned only when its 5 s context expired (busy loop on a peer message;
+        # the libp2p validator's context has no such deadline)
+        c.report("mirror-handler-does-not-return", "the real mirror's HandleProposedHeader kept running until the caller's context expired "
+                 "(%d proposed headers took more than 4 s each; unchanged tree: milliseconds)" % stats["handler_slower_than_4s"],
+                 {"how": "bin/h_mirror -seed %d -cases %d -ops %d  (and -seed %d ... -replay -consumers); the slow calls are printed on stderr as "
+                         "'SLOW HandleProposedHeader height=.. round=..'" % (c.seed + 909, ncases // 2, nops, c.seed + 1909),
+                  "slow_calls": stats["handler_slower_than_4s"]})
     n_steps = sum(len(k["steps"]) for k in cases)
     seen_keys = set()
     for cr in crashes:
